@@ -303,7 +303,7 @@ def run_cases(name, imports, streams, timeout=600):
         while len(running) >= 3:
             reap(False)
             time.sleep(0.05)
-        p = subprocess.Popen(['timeout', str(timeout), 'coqc', '-Q', COQ, 'EO', '-w', '-all', fn], stdout=subprocess.PIPE,
+        p = subprocess.Popen(['bash', '-c', f'ulimit -s unlimited 2>/dev/null || ulimit -s 1000000; exec timeout {timeout} coqc -Q {COQ} EO -w -all {fn}'], stdout=subprocess.PIPE,
                              stderr=subprocess.STDOUT, text=True, cwd=COQ)
         running.append((p, label, off, fn))
     while running:
